@@ -67,6 +67,8 @@ class StackModel:
         self.next_b0 = None
         self.next_b1 = None
         self.log = []
+        self.multi_step = False
+        self.history = []
 
     def get(self, pos):
         if pos >= 16:
@@ -602,6 +604,13 @@ def base_consts(repo):
         "miden_core::ZERO": F(Lin({}, 0)),
         "ONE": F(Lin({}, 1)),
         "ZERO": F(Lin({}, 0)),
+        "miden_core::code_blocks::Split::DOMAIN": Opaque("Split::DOMAIN"),
+        "miden_core::code_blocks::Loop::DOMAIN": Opaque("Loop::DOMAIN"),
+        "miden_core::code_blocks::Join::DOMAIN": Opaque("Join::DOMAIN"),
+        "miden_core::code_blocks::Call::CALL_DOMAIN": Opaque("Call::CALL_DOMAIN"),
+        "miden_core::code_blocks::Call::SYSCALL_DOMAIN": Opaque("Call::SYSCALL_DOMAIN"),
+        "miden_core::code_blocks::Dyn::DOMAIN": Opaque("Dyn::DOMAIN"),
+        "miden_core::EMPTY_WORD": [F(Lin({}, 0)) for _ in range(4)],
         "core::num::<impl u32>::MAX": I(2**32 - 1, "u32"),
         "core::num::<impl u64>::MAX": I(2**64 - 1, "u64"),
         "core::num::<impl u16>::MAX": I(2**16 - 1, "u16"),
